@@ -35,6 +35,7 @@ import DSymVerif.Proofs.StabilizerTotal
 import DSymVerif.Proofs.StabilizerPresentation
 import DSymVerif.Proofs.StabilizerTerminates
 import DSymVerif.Proofs.StabilizerInjective
+import DSymVerif.Proofs.StabilizerLetters
 
 namespace DSymVerif.C13
 open DSymVerif DSymVerif.SpecC11 DSymVerif.SpecC13 DSymVerif.StabP DSymVerif.CosetP DSymVerif.Cosets
@@ -363,6 +364,27 @@ theorem stabilizer_presentation_iso (t : Tab) (n : Nat) (rels : List (List Int))
         (actionHom (valid_of_validTable hvalid)) ∧
       Function.Injective f :=
   presentation_iso (complete_of_validTable hvalid) (valid_of_validTable hvalid) hb h
+
+/-- ✔ `stabilizer_relators_letters`.  The relators the model of `stabilizer` returns are words over
+    the returned generators: every letter is non-zero and of absolute value at most
+    `gens.length` (the conclusion is definitionally `Inv.InRange gens.length g` of C14/C17).
+    Edge words are empty, a single generator letter not exceeding the number of generators, or
+    products/inverses of such. -/
+theorem stabilizer_relators_letters (t : Tab) (n : Nat) (rels : List (List Int))
+    (hvalid : validTable t n rels [] = true) (base : Nat) (hb : base < t.size)
+    (gens srels : List (List Int))
+    (h : Stab.stabilizer base rels (Table.ofView n t) = .ok (gens, srels)) :
+    ∀ w ∈ srels, ∀ g ∈ w, g ≠ 0 ∧ g.natAbs ≤ gens.length :=
+  relators_letters (complete_of_validTable hvalid) (valid_of_validTable hvalid) hb h
+
+/-- ✔ `stabilizer_generators_letters`.  The returned generator words are words over the letters
+    `±1..±n` of the original group without a zero letter (definitionally `Inv.InRange n g`). -/
+theorem stabilizer_generators_letters (t : Tab) (n : Nat) (rels : List (List Int))
+    (hvalid : validTable t n rels [] = true) (base : Nat)
+    (gens srels : List (List Int))
+    (h : Stab.stabilizer base rels (Table.ofView n t) = .ok (gens, srels)) :
+    ∀ w ∈ gens, ∀ g ∈ w, g ≠ 0 ∧ g.natAbs ≤ n :=
+  generators_letters (complete_of_validTable hvalid) (valid_of_validTable hvalid) h
 
 /-- ✔ `stabilizer_total`.  On every table passing the Spec of C11 and every base row that is a row,
     the model of `stabilizer` (after the repairs D13/D14) returns a result: no modelled panic
